@@ -3,7 +3,7 @@
    its shape (64 characters, none of them "/": a hex digest) and, where stated, no collision on the
    two keys involved. *)
 From Coq Require Import String Ascii List Bool Arith ZArith.
-From TC Require Import PyStr Value Dict Cache CacheProofs.
+From TC Require Import PyStr Value Dict Cache CacheProofs MemCache MemCacheProofs.
 Import ListNotations.
 
 Theorem C14_hit_returns_stored : forall H c fs key v comp,
@@ -92,3 +92,46 @@ Theorem C14_sibling_subcaches_never_share : forall H,
   cache_get H (subcache c n1) fs' k1 = cache_get H (subcache c n1) fs k1.
 Proof. exact sibling_subcaches_never_share. Qed.
 Print Assumptions C14_sibling_subcaches_never_share.
+
+(* ---------- the in-memory cache (Model/MemCache.v): the same statements on the mapping it keeps ---------- *)
+Theorem C14_memory_get_never_computes_or_stores : forall s sub k,
+  mstep s (MGet sub k) = (s, match mget (sub, k) s with Some v => MVal v 0 | None => MNoValue end).
+Proof. exact get_changes_nothing. Qed.
+Print Assumptions C14_memory_get_never_computes_or_stores.
+
+Theorem C14_memory_hit_returns_stored : forall s sub k v comp,
+  mget (sub, k) s = Some v -> mstep s (MGoc sub k comp false) = (s, MVal v 0).
+Proof. exact goc_hit. Qed.
+Print Assumptions C14_memory_hit_returns_stored.
+
+Theorem C14_memory_miss_or_force_computes_once : forall s sub k comp force v,
+  mget (sub, k) s = None \/ force = true -> comp = Some v ->
+  let s' := fst (mstep s (MGoc sub k comp force)) in
+  snd (mstep s (MGoc sub k comp force)) = MVal v 1 /\
+  mget (sub, k) s' = Some v /\
+  (forall k', k' <> (sub, k) -> mget k' s' = mget k' s).
+Proof. exact goc_computes. Qed.
+Print Assumptions C14_memory_miss_or_force_computes_once.
+
+Theorem C14_memory_raise_stores_nothing : forall s sub k force,
+  fst (mstep s (MGoc sub k None force)) = s /\
+  (mget (sub, k) s = None \/ force = true -> snd (mstep s (MGoc sub k None force)) = MExc 1).
+Proof. exact raising_stores_nothing. Qed.
+Print Assumptions C14_memory_raise_stores_nothing.
+
+(* a look-up that misses leaves no entry behind *)
+Theorem C14_memory_missed_lookup_then_compute : forall s sub k v,
+  mget (sub, k) s = None ->
+  mstep (fst (mstep s (MGet sub k))) (MGoc sub k (Some v) false) = (mset (sub, k) v s, MVal v 1).
+Proof. exact missed_lookup_then_compute. Qed.
+Print Assumptions C14_memory_missed_lookup_then_compute.
+
+(* sub-caches and distinct keys never share entries *)
+Theorem C14_memory_other_entries_untouched : forall s o k',
+  target o <> Some k' -> mget k' (fst (mstep s o)) = mget k' s.
+Proof. exact other_entries_untouched. Qed.
+Print Assumptions C14_memory_other_entries_untouched.
+
+Theorem C14_memory_one_entry_per_key : forall ops, NoDup (map fst (mstate [] ops)).
+Proof. exact reachable_nodup. Qed.
+Print Assumptions C14_memory_one_entry_per_key.
